@@ -11,7 +11,11 @@ func withSuffix(enc []byte) []byte {
 
 func H_C06_SMB_STRING() {
 	format := UCHAR(vParam("format"))
-	payload := vBytes("payload", vParam("len"))
+	// the payload is cut from a larger array (say one name out of a packed list): two more bytes of the caller's follow it
+	L := vParam("len")
+	backing := vBytes("payload", L+2)
+	payload := backing[:L]
+	behind0, behind1 := backing[L], backing[L+1]
 	if format == SMB_STRING_BUFFER_FORMAT_NULL_TERMINATED_OEM_STRING || format == SMB_STRING_BUFFER_FORMAT_NULL_TERMINATED_ASCII_STRING {
 		for i := range payload {
 			vAssume(payload[i] != 0) // NUL-terminated formats cannot carry an embedded NUL
@@ -21,6 +25,7 @@ func H_C06_SMB_STRING() {
 	s.SetBufferFormat(format)
 	enc, err := s.Marshal()
 	vCheck(err == nil, "SMB_STRING/marshal-ok")
+	vCheck(backing[L] == behind0 && backing[L+1] == behind1, "SMB_STRING/marshal-leaves-the-caller's-bytes-behind-the-buffer-alone")
 	d := SMB_STRING{BufferFormat: vU8("prev.format"), Length: USHORT(vU16("prev.length")), Buffer: vBytes("prev.buffer", 3)} // a reused receiver
 	n, err := d.Unmarshal(withSuffix(enc))
 	vCheck(err == nil, "SMB_STRING/unmarshal-ok")
@@ -174,7 +179,12 @@ func H_C06_SMB_DIRECTORY_INFORMATION() {
 		vAssume(name[i] != 0)
 		vAssume(name[i] != ' ') // names are compared modulo space padding; no space inside for an exact comparison
 	}
-	v.FileName = *NewOEM_STRINGFromString(name)
+	if vParam("lit") == 1 {
+		// the name given as a plain literal: only the buffer is set (the Length field is not on the wire in this format)
+		v.FileName = OEM_STRING{SMB_STRING: SMB_STRING{Buffer: []UCHAR(name)}}
+	} else {
+		v.FileName = *NewOEM_STRINGFromString(name)
+	}
 	enc, err := v.Marshal()
 	vCheck(err == nil, "DIRECTORY_INFORMATION/marshal-ok")
 	d := NewSMB_DIRECTORY_INFORMATION()
